@@ -119,6 +119,7 @@ pub(crate) struct RibState {
     policy_on: bool,
     deferring: bool,
     touched: bool,
+    ever_deferred: bool,
 }
 
 pub(crate) struct Sys {
@@ -249,6 +250,7 @@ impl PipeModel {
             policy_on: false,
             deferring: false,
             touched: false,
+            ever_deferred: false,
         }
     }
 
@@ -330,6 +332,7 @@ impl PipeModel {
                 }
                 tables.start_deferral_families(&[F]);
                 st.deferring = true;
+                st.ever_deferred = true;
             }
             Op::EndDeferral => {
                 if !st.deferring {
@@ -803,7 +806,7 @@ impl Model for PipeModel {
         let mut loc: Vec<String> = sys.d.tables.collect_loc_rib_paths(F).iter().map(|c| format!("{}#{}:{:?}", c.net, c.dest_id, c.current_paths.iter().map(|p| (p.local_path_id, p.source.remote_addr, p.nexthop.map(|n| n.addr()))).collect::<Vec<_>>())).collect();
         loc.sort();
         // what is queued for the observer is determined by the ops since the last sync: keep them distinct
-        format!("{:?}|{:?}|{:?}|{:?}|{:?}|{}|{}|{:?}|{}|{:?}|{:?}", rib, loc, sys.mirror, sys.st.src_epoch, sys.st.nh_down, sys.st.policy_on, sys.dirty, sys.broken, sys.dead, sys.st.src_down, (sys.policy_pending_reset, sys.conn.is_some(), crate::verif::gate::parked(Arc::as_ptr(&sys.d.tables) as usize, OBS), sys.ev_held, sys.st.deferring, sys.st.touched, &sys.unsynced)).into_bytes()
+        format!("{:?}|{:?}|{:?}|{:?}|{:?}|{}|{}|{:?}|{}|{:?}|{:?}", rib, loc, sys.mirror, sys.st.src_epoch, sys.st.nh_down, sys.st.policy_on, sys.dirty, sys.broken, sys.dead, sys.st.src_down, (sys.policy_pending_reset, sys.conn.is_some(), crate::verif::gate::parked(Arc::as_ptr(&sys.d.tables) as usize, OBS), sys.ev_held, sys.st.deferring, sys.st.touched, sys.st.ever_deferred, &sys.unsynced)).into_bytes()
     }
 
     fn observe(&self, sys: &Sys) -> u64 {
